@@ -103,83 +103,134 @@ def d2(chk, prog):
     tb2.done("do_reference_flat does not store the flat profile / its depth")
 
 
+def pool_arrays(n_files, style="chr", gene_differs=None, coord_differs=None, with_depth=True):
+    """the .cnn tables of a pool: same bins (autosome, X, Y), symbolic per-file log2 / depth"""
+    out = {}
+    for k in range(n_files):
+        rows = []
+        for i, c in enumerate(("auto", "x", "y")):
+            r = dict(chromosome=chrom(c, style), start=1000 * i, end=1000 * i + 500, gene=f"g{i}", log2=Term.sym(f"L{k}_{c}"))
+            if with_depth:
+                r["depth"] = Term.sym(f"D{k}_{c}", 0, INF)
+            rows.append(r)
+        if gene_differs == k:
+            rows[1]["gene"] = "OTHER"
+        if coord_differs == k:
+            rows[2]["end"] = 999999
+        out[k] = make_ga("CopyNumArray", rows, {"_classes": ["auto", "x", "y"], "sample_id": f"S{k}"}, exact=True)
+    return out
+
+
+def run_block(prog, fnames, arrays_by_name, hap, par, sexes, skip_low, fix_gc, fix_edge, fix_rmask):
+    model = par_model()
+    ev = dict(read=[], bias=[], stacks=[])
+    model.prims["cnvlib.cmdutil.read_cna"] = lambda it, f, *a, **k: ev["read"].append(f) or arrays_by_name[f]
+    model.prims["cnvlib.fix.get_edge_bias"] = lambda it, arr, margin: ("EDGE_BIAS", arr, margin)
+
+    def bias(it, cnarr, ref_columns, ref_edge_bias, ref_flat_logr, sexes_, is_chr_x, is_chr_y, fg, fe, fr, sl, pg):
+        ev["bias"].append(dict(arr=cnarr, cols=sorted(ref_columns), edge=ref_edge_bias, flat=list(ref_flat_logr.v), sexes=sexes_, x=list(is_chr_x.v), y=list(is_chr_y.v),
+                               flags=(fg, fe, fr, sl), par=pg))
+        return ("CORRECTED", cnarr.meta.get("sample_id"))
+    model.prims[f"{REF}.bias_correct_logr"] = bias
+    model.ext["np.vstack"] = lambda it, rows: ev["stacks"].append(list(rows)) or ("VSTACK", len(ev["stacks"]) - 1)
+    it = Interp(prog, model)
+    out = it.run(f"{REF}.load_sample_block", [list(fnames), None, hap, par, sexes, skip_low, fix_gc, fix_edge, fix_rmask])
+    return out, ev
+
+
 def d3(chk, prog):
     chk.clause("D3", "a sample whose bins differ from the first file's is rejected before it joins the matrix")
-    chk.rule("must-pass-through", "in the loop over the remaining files every append to the log2 / depth matrices is dominated by an `if not "
-             "np.array_equal(<first>.(chromosome,start,end,gene), <this>.(...))` whose body raises")
+    chk.rule("must-pass-through", "load_sample_block interpreted on a pool of three files: if any later file differs from the first in chromosome, start, end or gene "
+             "the function raises instead of returning a matrix")
     fi = prog.fn(f"{REF}.load_sample_block")
-    par = parents(fi.node)
-    loops = [n for n in own_nodes(fi.node) if isinstance(n, ast.For) and "filenames[1:]" in norm(n.iter)]
-    if len(loops) != 1:
-        raise AnalysisError("load_sample_block: loop over filenames[1:] vanished")
-    loop = loops[0]
-    guards = []
-    for n in loop.body:
-        if isinstance(n, ast.If) and any(isinstance(s, ast.Raise) for s in n.body) and "array_equal" in norm(n.test):
-            cols = {c.value for c in ast.walk(n.test) if isinstance(c, ast.Constant) and isinstance(c.value, str)}
-            names = {x.id for x in ast.walk(n.test) if isinstance(x, ast.Name)}
-            negated = isinstance(n.test, ast.UnaryOp) and isinstance(n.test.op, ast.Not)
-            if {"chromosome", "start", "end"} <= cols and {"cnarr1", "cnarrx"} <= names and negated:
-                guards.append((n, cols))
-    appends = [c for c in ast.walk(loop) if isinstance(c, ast.Call) and isinstance(c.func, ast.Attribute) and c.func.attr == "append" and norm(c.func.value) in ("all_logr", "all_depths")]
-    chk.floor("matrix appends in the sample loop", len(appends), 2)
-    for a in appends:
-        st = stmt_of(a, par)
-        ok = any(dominates(g, st, par) for g, _ in guards)
-        chk.decide(ok, "must-pass-through", f"{norm(a.func)} is preceded by the bins-differ check", f"{fi.qn}::{norm(a.func)}", fi.loc(a),
-                   "a sample's values join the reference matrix without the check that its (chromosome, start, end, gene) equal the first file's: files with "
-                   "different bins would be averaged row by row")
-    chk.decide(bool(guards) and all("gene" in c for _, c in guards), "must-pass-through", "the check compares chromosome, start, end and gene", f"{fi.qn}::coordinate check columns", fi.loc(loop),
-               "the bins-differ check must compare chromosome, start, end, gene")
+    tb = Table(chk, "must-pass-through", "load_sample_block: a file with other bins / other gene names is refused", fi.loc(), fi.qn)
+    names = ["/d/b.targetcoverage.cnn", "/d/a.targetcoverage.cnn", "/d/c.targetcoverage.cnn"]
+    for label, kw in (("same bins", {}), ("third file: one end differs", dict(coord_differs=2)), ("second file: one gene name differs", dict(gene_differs=1)), ("first file differs from the rest", dict(coord_differs=0))):
+        W.reset()
+        arrs = pool_arrays(3, **kw)
+        by_name = {names[k]: arrs[k] for k in range(3)}
+        try:
+            out, ev = run_block(prog, names, by_name, False, None, {}, True, False, False, False)
+            raised = None
+        except Raised as e:
+            out, raised = None, str(e)
+        except Undecided as e:
+            raise AnalysisError(f"C05-D3: cannot interpret load_sample_block ({label}): {e}")
+        want_raise = bool(kw)
+        tb.cell((raised is not None) == want_raise, dict(case=label, raised=raised, want="raises" if want_raise else "returns"))
+    tb.done("files whose bins (chromosome, start, end, gene) differ are averaged row by row instead of being rejected")
 
 
 def d4(chk, prog):
     chk.clause("D4", "matrix shape: row 0 flat pseudo-sample, other rows bias_correct_logr(sample); sorted file order; centre -> shift -> correct")
     fi = prog.fn(f"{REF}.load_sample_block")
-    par = parents(fi.node)
-    first = fi.node.body[0] if not isinstance(fi.node.body[0], ast.Expr) else fi.node.body[1]
-    srt = [n for n in own_nodes(fi.node) if isinstance(n, ast.Assign) and norm(n.targets[0]) == "filenames" and isinstance(n.value, ast.Call) and norm(n.value.func) == "sorted"]
-    ok = bool(srt) and any(k.arg == "key" and norm(k.value) == "core.fbase" for k in srt[0].value.keywords)
-    reads = [n for n in own_nodes(fi.node) if isinstance(n, ast.Call) and norm(n.func) == "read_cna"]
-    ok = ok and all(dominates(srt[0], stmt_of(r, par), par) for r in reads)
-    chk.decide(ok, "matrix-shape", "files are processed in sorted(key=core.fbase) order (targets and antitargets pair up)", f"{fi.qn}::file order", fi.loc(),
-               "load_sample_block must sort the file names by sample base name before reading any of them")
-    lit = [n for n in own_nodes(fi.node) if isinstance(n, ast.Assign) and norm(n.targets[0]) == "all_logr" and isinstance(n.value, ast.List)]
-    ok = len(lit) == 1 and len(lit[0].value.elts) == 2 and norm(lit[0].value.elts[0]) == "ref_flat_logr" and isinstance(lit[0].value.elts[1], ast.Call) \
-        and norm(lit[0].value.elts[1].func) == "bias_correct_logr" and norm(lit[0].value.elts[1].args[0]) == "cnarr1"
-    chk.decide(ok, "matrix-shape", "all_logr = [flat pseudo-sample, bias_correct_logr(first sample), ...]", f"{fi.qn}::all_logr rows", fi.loc(),
-               "row 0 of the log2 matrix must be the neutral pseudo-sample (ref_flat_logr) followed by the corrected first sample")
-    apps = [c for c in own_nodes(fi.node) if isinstance(c, ast.Call) and norm(c.func) == "all_logr.append"]
-    ok = len(apps) == 1 and isinstance(apps[0].args[0], ast.Call) and norm(apps[0].args[0].func) == "bias_correct_logr" and norm(apps[0].args[0].args[0]) == "cnarrx"
-    chk.decide(ok, "matrix-shape", "every further row is bias_correct_logr(that sample)", f"{fi.qn}::all_logr.append", fi.loc(), "later samples must be appended as bias_correct_logr(cnarrx, ...)")
-    # how the shared pieces are computed
-    want = {"is_chr_x": "cnarr1.chr_x_filter(diploid_parx_genome)", "is_chr_y": "cnarr1.chr_y_filter(diploid_parx_genome)",
-            "ref_flat_logr": "cnarr1.expect_flat_log2(is_haploid_x, diploid_parx_genome)"}
-    for name, expr in want.items():
-        got = [norm(v) for st, v in flow.assignments(fi.node, name) if v is not None]
-        chk.decide(got == [expr], "matrix-shape", f"{name} = {expr}", f"{fi.qn}::{name}", fi.loc(), f"{name} must be computed once as `{expr}`; found {got}")
+    tb = Table(chk, "matrix-shape", "load_sample_block on a pool of three files (reference sex x PAR genome x flags)", fi.loc(), fi.qn)
+    names = ["/d/b.targetcoverage.cnn", "/d/a.targetcoverage.cnn", "/d/c.targetcoverage.cnn"]
+    for hap, par, skip_low, fe, with_depth in itertools.product([False, True], [None, "grch38"], [True, False], [True, False], [True, False]):
+        W.reset()
+        arrs = pool_arrays(3, with_depth=with_depth)
+        by_name = {names[k]: arrs[k] for k in range(3)}
+        sexes = {"S0": True, "S1": False}
+        try:
+            out, ev = run_block(prog, names, by_name, hap, par, sexes, skip_low, False, fe, False)
+        except Raised as e:
+            tb.cell(False, dict(hap=hap, par=par, raised=str(e)))
+            continue
+        except Undecided as e:
+            raise AnalysisError(f"C05-D4: cannot interpret load_sample_block: {e}")
+        ref_df, all_logr, all_depths = out
+        order = ["/d/a.targetcoverage.cnn", "/d/b.targetcoverage.cnn", "/d/c.targetcoverage.cnn"]
+        first = by_name[order[0]]
+        flat = [0, -1 if hap else 0, -1]
+        ok = ev["read"] == order
+        logr = ev["stacks"][all_logr[1]] if isinstance(all_logr, tuple) and all_logr[0] == "VSTACK" else None
+        deps = ev["stacks"][all_depths[1]] if isinstance(all_depths, tuple) and all_depths[0] == "VSTACK" else None
+        ok = ok and logr is not None and len(logr) == 4 and isinstance(logr[0], Vec) and all(same(a, b) for a, b in zip(logr[0].v, flat)) \
+            and logr[1:] == [("CORRECTED", by_name[f].meta["sample_id"]) for f in order]
+        if deps is not None and ok:
+            for row, f in zip(deps, order):
+                a = by_name[f]
+                for i, c in enumerate(("auto", "x", "y")):
+                    want = a.data.cols["depth"].v[i] if with_depth else f_exp2(a.data.cols["log2"].v[i])
+                    ok = ok and same(row.v[i], want)
+        else:
+            ok = False
+        calls = ev["bias"]
+        ok = ok and len(calls) == 3 and [c["arr"] for c in calls] == [by_name[f] for f in order]
+        for c in calls:
+            ok = ok and c["x"] == [False, True, False] and c["y"] == [False, False, True] and all(same(a, b) for a, b in zip(c["flat"], flat)) and c["sexes"] is sexes \
+                and c["flags"] == (False, fe, False, skip_low) and c["par"] == par and isinstance(c["edge"], tuple) and c["edge"][1] is first and same(c["edge"][2], 250)
+        ok = ok and isinstance(ref_df, DF) and list(ref_df.cols)[:4] == ["chromosome", "start", "end", "gene"] and all(same(a, b) for a, b in zip(ref_df.cols["start"].v, first.data.cols["start"].v))
+        tb.cell(ok, dict(haploid_x_reference=hap, par_genome=par, skip_low=skip_low, fix_edge=fe, depth_column=with_depth, files_read=ev["read"],
+                         matrix_rows=[repr(x)[:40] for x in (logr or [])], per_sample_args=[dict(x=c["x"], y=c["y"], flat=[repr(v) for v in c["flat"]], flags=c["flags"]) for c in calls][:1]))
+    tb.done("the sample matrix is not [flat pseudo-sample, corrected samples in sample-name order] built with the pool's X / Y masks, flat profile, sexes and flags")
+    # order of the per-sample steps, by interpretation with recording summaries
     fb = prog.fn(f"{REF}.bias_correct_logr")
-    pb = parents(fb.node)
-    calls = {}
-    for n in own_nodes(fb.node):
-        if isinstance(n, ast.Call):
-            f = norm(n.func)
-            if f in ("cnarr.center_all", "shift_sex_chroms", "fix.center_by_window"):
-                calls.setdefault(f, []).append(n)
-    ok = len(calls.get("cnarr.center_all", [])) == 1 and len(calls.get("shift_sex_chroms", [])) == 1 and len(calls.get("fix.center_by_window", [])) >= 1
-    if ok:
-        c0, c1 = stmt_of(calls["cnarr.center_all"][0], pb), stmt_of(calls["shift_sex_chroms"][0], pb)
-        ok = dominates(c0, c1, pb) and c0 is not c1 and all(dominates(c1, stmt_of(w, pb), pb) for w in calls["fix.center_by_window"])
-    chk.decide(ok, "matrix-shape", "bias_correct_logr: center_all, then shift_sex_chroms, then the windowed corrections", f"{fb.qn}::order", fb.loc(),
-               "each sample must be median-centred, then shifted to the reference sex, before any bias correction")
-    rets = [norm(r.value) for r in own_nodes(fb.node) if isinstance(r, ast.Return)]
-    chk.decide(rets == ["cnarr['log2']"], "matrix-shape", "bias_correct_logr returns the sample's corrected log2 column", f"{fb.qn}::return", fb.loc(), f"returns {rets}")
-    ca = calls.get("cnarr.center_all", [None])[0]
-    if ca is not None:
-        kws = {k.arg: norm(k.value) for k in ca.keywords}
-        ok = kws.get("skip_low") == "skip_low" and kws.get("diploid_parx_genome") == "diploid_parx_genome" and not ca.args
-        chk.decide(ok, "matrix-shape", "centring uses the default estimator (median) with skip_low and the PAR genome passed on", f"{fb.qn}::center_all args", fb.loc(ca),
-                   f"center_all is called with {kws} / {[norm(a) for a in ca.args]}; the property states median-centring (default estimator)")
+    tb2 = Table(chk, "matrix-shape", "bias_correct_logr: centre (median, skip_low, PAR), shift sex chromosomes, then the enabled corrections", fb.loc(), fb.qn)
+    for fg, fe, fr, low in itertools.product([True, False], [True, False], [True, False], [False, True]):
+        W.reset()
+        model = Model()
+        ev = []
+        model.method_prims["center_all"] = lambda it, obj, *a, ev=ev, **k: ev.append(("center", a, k)) and None
+        model.prims[f"{REF}.shift_sex_chroms"] = lambda it, arr, sx, flat, x, y, ev=ev: ev.append(("shift", sx, flat, x, y)) and None
+
+        def cbw(it, arr, frac, key, ev=ev):
+            ev.append(("window", key))
+            return arr
+        model.prims["cnvlib.fix.center_by_window"] = cbw
+        it = Interp(prog, model)
+        rows = [dict(chromosome="chr1", start=i, end=i + 1, gene="g", log2=Term.sym(f"b{i}", -INF if low else -10, -16 if low else 10)) for i in range(3)]
+        arr = make_ga("CopyNumArray", rows, {"sample_id": "S"}, exact=True)
+        cols = {"gc": "GC", "rmask": "RMASK"}
+        out = tb2.guard(lambda: it.run(fb.qn, [arr, cols, "EDGE", "FLAT", "SEXES", "ISX", "ISY", fg, fe, fr, "SKIP", "PAR"]), f"gc={fg} edge={fe} rmask={fr} low={low}")
+        if out is None:
+            continue
+        want = [("center", (), {"skip_low": "SKIP", "diploid_parx_genome": "PAR"}), ("shift", "SEXES", "FLAT", "ISX", "ISY")]
+        if not low:
+            want += ([("window", "GC")] if fg else []) + ([("window", "RMASK")] if fr else []) + ([("window", "EDGE")] if fe else [])
+        kinds_ok = [e[0] for e in ev][:2] == ["center", "shift"] and sorted(map(repr, ev[2:])) == sorted(map(repr, want[2:])) and ev[:2] == want[:2]
+        tb2.cell(kinds_ok and isinstance(out, Vec) and all(same(a, b) for a, b in zip(out.v, arr.data.cols["log2"].v)), dict(fix_gc=fg, fix_edge=fe, fix_rmask=fr, mostly_no_coverage=low, events=[repr(e)[:60] for e in ev]))
+    tb2.done("a pooled sample is not median-centred, then shifted to the reference sex, then bias-corrected (in that order)")
 
 
 def d5(chk, prog):
@@ -360,6 +411,11 @@ MUTANTS = [
     dict(name="swap fix_edge / fix_rmask for targets", file=_R, old="        filenames, fa_fname, is_haploid_x, diploid_parx_genome, sexes, True, fix_gc, fix_edge, False\n", new="        filenames, fa_fname, is_haploid_x, diploid_parx_genome, sexes, True, fix_gc, False, fix_edge\n"),
     dict(name="swap is_chr_x / is_chr_y at the call", file=_R, old="    shift_sex_chroms(cnarr, sexes, ref_flat_logr, is_chr_x, is_chr_y)\n", new="    shift_sex_chroms(cnarr, sexes, ref_flat_logr, is_chr_y, is_chr_x)\n"),
     dict(name="in-place widening of the shared Y mask (seeded C05a)", file=_R, old='        cnarr[is_chr_x | is_chr_y, "log2"] += 1.0', new='        is_chr_y |= is_chr_x\n        cnarr[is_chr_y, "log2"] += 1.0'),
+    dict(name="twin: first array renamed throughout load_sample_block", edits=[(_R, "cnarr1", "first_arr", True)], expect="silent"),
+    dict(name="twin: masks computed in another order, flat profile first", file=_R, old="    is_chr_x = cnarr1.chr_x_filter(diploid_parx_genome)\n    is_chr_y = cnarr1.chr_y_filter(diploid_parx_genome)\n    ref_flat_logr = cnarr1.expect_flat_log2(is_haploid_x, diploid_parx_genome)\n",
+         new="    ref_flat_logr = cnarr1.expect_flat_log2(is_haploid_x, diploid_parx_genome)\n    x_mask = cnarr1.chr_x_filter(diploid_parx_genome)\n    is_chr_y = cnarr1.chr_y_filter(diploid_parx_genome)\n    is_chr_x = x_mask\n", expect="silent"),
+    dict(name="twin: bins check split into two raises", file=_R, old="        if not np.array_equal(\n            cnarr1.data.loc[:, (\"chromosome\", \"start\", \"end\", \"gene\")].values,\n            cnarrx.data.loc[:, (\"chromosome\", \"start\", \"end\", \"gene\")].values,\n        ):",
+         new="        same_coords = np.array_equal(\n            cnarr1.data.loc[:, (\"chromosome\", \"start\", \"end\")].values,\n            cnarrx.data.loc[:, (\"chromosome\", \"start\", \"end\")].values,\n        )\n        same_genes = np.array_equal(cnarr1.data.loc[:, (\"gene\",)].values, cnarrx.data.loc[:, (\"gene\",)].values)\n        if not (same_coords and same_genes):", expect="silent"),
     dict(name="twin: mask operands swapped", file=_R, old='        cnarr[is_chr_x | is_chr_y, "log2"] += 1.0', new='        cnarr[is_chr_y | is_chr_x, "log2"] += 1.0', expect="silent"),
     dict(name="twin: gc sum reordered", file=_R, old="    frac_gc = (cnt_gc_lo + cnt_gc_up) / tot", new="    frac_gc = (cnt_gc_up + cnt_gc_lo) / float(tot)", expect="silent"),
 ]
